@@ -664,10 +664,16 @@ class Agent(object):
             comp.stop()
             if not _is_technical(comp.name):
                 try:
-                    self.discovery.unregister_computation(comp.name)
+                    # Give our name: if the computation has been registered on
+                    # another agent in the meantime (e.g. migrated after a
+                    # repair), our un-registration must not remove it.
+                    self.discovery.unregister_computation(comp.name, self.name)
                 except UnreachableAgent:
                     # when stopping the agent, the orchestrator / directory might have
                     # already left.
+                    pass
+                except ValueError:
+                    # Already known to be hosted on another agent.
                     pass
 
         if self._ui_server:
